@@ -118,6 +118,9 @@ ReshapeBad(x) ==
     \/ x.k = "tt" /\ C("reshape", "numel", x, [shape |-> x.I \o <<2>>], TRUE, TRUE)
     \/ x.k = "ttm" /\ C("reshape", "numel", x, [shape |-> <<>>], TRUE, TRUE)     \* harness: [(M1*2, N1)] + rest
     \/ x.k = "tt" /\ Prod(x.I) > 1 /\ C("qtt_to_tens", "numel", x, [shape |-> <<Prod(x.I) + 1>>], TRUE, TRUE)
+    \* a requested size strictly between two reachable products of consecutive modes (the group count still matches)
+    \/ x.k = "tt" /\ Len(x.I) >= 2 /\ x.I[1] * (x.I[2] - 1) > 1
+       /\ C("qtt_to_tens", "between", x, [shape |-> <<x.I[1] * x.I[2] - 1>> \o SubSeq(x.I, 3, Len(x.I))], TRUE, TRUE)
     \/ x.k = "tt" /\ (\E p \in 1..Len(x.I) : x.I[p] = 3) /\ C("to_qtt", "power", x, <<>>, TRUE, TRUE)
     \* the optional mode_size: a mode that is neither 1 nor a power of mode_size (here 2 or 4 with mode_size = 3)
     \/ x.k = "tt" /\ (\E p \in 1..Len(x.I) : x.I[p] \in {2, 4}) /\ C("to_qtt_ms3", "power", x, <<>>, TRUE, TRUE)
